@@ -5,6 +5,7 @@ the per-run behaviour digests must be identical. Usage: determinism.py [runs-sca
 import os, subprocess, sys, json, time
 VERIF = os.path.dirname(os.path.dirname(os.path.abspath(__file__)))
 ENGINES = [("rc", "clocksim", 6000), ("rc", "unwindsim", 400), ("rc", "histsim", 2500), ("rc", "modsim", 2500),
+           ("rc", "compsim", 8000), ("rc", "seqsim", 3000),
            ("arc", "locksim", 3000), ("arc", "clocksim", 2000), ("arc", "unwindsim", 200)]
 scale = float(sys.argv[1]) if len(sys.argv) > 1 else 1.0
 seeds = [int(x) for x in sys.argv[2:]] or [1, 2]
